@@ -245,6 +245,40 @@ static void vr_exec_setup (OrcExecutor * ex, OrcProgram * p, VArena * A, const V
  * relative to reference arena R, which must have been filled identically and
  * be laid out with the same strides.  Returns 0 if equal; otherwise fills
  * msg. */
+/* Memory outside the entitled destination elements after a run: arena X (run) against arena R, allocated and filled
+ * identically and never run.  Every byte of every array's mapping other than elements 0..n-1 of the rows of a
+ * destination must be as filled.  Returns 0 if so. */
+static int vr_untouched (VArena * X, VArena * R, const VRunCfg * c, OrcProgram * p, char *msg, size_t cap)
+{
+  int i, rows = c->m;
+  for (i = 0; i < VR_NARR; i++) {
+    VArr *x, *q;
+    long lo, hi, lo_r, hi_r, b;
+    if (!X->sh.present[i]) continue;
+    x = &X->a[i];
+    q = &R->a[i];
+    lo = x->mem - x->data; hi = (long) x->memlen + lo;
+    lo_r = q->mem - q->data; hi_r = (long) q->memlen + lo_r;
+    if (lo_r > lo) lo = lo_r;
+    if (hi_r < hi) hi = hi_r;
+    for (b = lo; b < hi; b++) {
+      if (x->data[b] == q->data[b]) continue;
+      if (X->sh.isdest[i]) {
+        int rr, ent = 0;
+        for (rr = 0; rr < (rows > 0 ? rows : 0) && !ent; rr++) {
+          long st = (long) rr * x->stride;
+          if (b >= st && b < st + (long) c->n * x->esize) ent = 1;
+        }
+        if (ent) continue;
+      }
+      snprintf (msg, cap, "%s array %s: byte at offset %ld from element 0 was written, outside elements 0..%d of its %d row(s) (0x%02x, was 0x%02x)",
+          X->sh.isdest[i] ? "destination" : "source", p->vars[i].name ? p->vars[i].name : "?", b, c->n - 1, rows, x->data[b], q->data[b]);
+      return 1;
+    }
+  }
+  return 0;
+}
+
 static int vr_compare (VArena * X, VArena * R, const VRunCfg * c, OrcExecutor * ex_x, OrcExecutor * ex_r, char *msg, size_t cap)
 {
   int i, r, k;
